@@ -46,17 +46,17 @@ End Faults.
 
 (** the fault injected by the harness wrapper: the call fails with an I/O error, the wrapped
     filesystem is not called, the plan is consumed *)
-Lemma wrap_fault_fires k inner c bases hs lg :
-  run bhandler (wrap_impl k inner c) (mkStore bases hs lg (Some (k, 0))) =
-  (mkStore bases hs ((k, c) :: lg) None, Err (mkErr EIo PUnfilled)).
+Lemma wrap_fault_fires k inner c bases hs lg io :
+  run bhandler (wrap_impl k inner c) (mkStore bases hs lg (Some (k, 0)) io) =
+  (mkStore bases hs ((k, c) :: lg) None io, Err (mkErr EIo PUnfilled)).
 Proof. unfold wrap_impl. cbn. rewrite Nat.eqb_refl. reflexivity. Qed.
 
-Lemma wrap_fault_counts k inner c bases hs lg n :
-  run bhandler (wrap_impl k inner c) (mkStore bases hs lg (Some (k, S n))) =
-  run bhandler (inner c) (mkStore bases hs ((k, c) :: lg) (Some (k, n))).
+Lemma wrap_fault_counts k inner c bases hs lg io n :
+  run bhandler (wrap_impl k inner c) (mkStore bases hs lg (Some (k, S n)) io) =
+  run bhandler (inner c) (mkStore bases hs ((k, c) :: lg) (Some (k, n)) io).
 Proof. unfold wrap_impl. cbn. rewrite Nat.eqb_refl. reflexivity. Qed.
 
-Lemma wrap_no_fault k inner c bases hs lg :
-  run bhandler (wrap_impl k inner c) (mkStore bases hs lg None) =
-  run bhandler (inner c) (mkStore bases hs ((k, c) :: lg) None).
+Lemma wrap_no_fault k inner c bases hs lg io :
+  run bhandler (wrap_impl k inner c) (mkStore bases hs lg None io) =
+  run bhandler (inner c) (mkStore bases hs ((k, c) :: lg) None io).
 Proof. reflexivity. Qed.
